@@ -132,6 +132,13 @@ Compare(d, op, l, r) ==
 Bound(env, pre) == pre = "" \/ pre \in DOMAIN env.ns
 Uri(env, pre) == IF pre = "" THEN <<>> ELSE env.ns[pre]
 TestPrefix(test) == IF test.k \in {"name", "nsany"} THEN test.pre ELSE ""
+\* A NAME test on the namespace axis follows the library's own rule, not XPath's (which would compare the node's prefix): it
+\* selects the namespace nodes whose URI is the URI THE QUERY binds to that name - none when the query does not bind it.  What the
+\* document calls its prefixes never matters (C11: invariance under re-serialising the document with other prefixes).
+RECURSIVE JoinS(_)
+JoinS(s) == IF s = <<>> THEN "" ELSE s[1] \o JoinS(Tail(s))
+NsNameTest(d, env, test, m) ==
+  d[m].k = "ns" /\ test.pre = "" /\ JoinS(test.lo) \in DOMAIN env.ns /\ d[m].v = env.ns[JoinS(test.lo)]
 NodeTest(d, env, ax, test, m) ==
   CASE test.k = "node" -> TRUE
     [] test.k = "text" -> d[m].k = "text"
@@ -139,6 +146,7 @@ NodeTest(d, env, ax, test, m) ==
     [] test.k = "pi" -> d[m].k = "pi"
     [] test.k = "pit" -> d[m].k = "pi" /\ d[m].lo = test.target
     [] test.k = "any" -> d[m].k = Principal(ax)
+    [] test.k = "name" /\ ax = "namespace" -> NsNameTest(d, env, test, m)
     [] test.k = "name" -> d[m].k = Principal(ax) /\ d[m].lo = test.lo /\ d[m].sp = Uri(env, test.pre)
     [] test.k = "nsany" -> d[m].k = Principal(ax) /\ d[m].sp = Uri(env, test.pre)
     [] test.k = "localany" -> d[m].k = Principal(ax) /\ d[m].lo = test.lo
